@@ -221,7 +221,7 @@ def run_driver(run, tier, focus, drv, replay=None):
                 else:
                     vlib.log("NOTE: %s finding (reported by ./check %s): %s" % (prop, prop, desc[:300]))
         # 5. negative control: move one free in front of the completion it waits for
-        if not replay:
+        if not replay and os.path.getsize(results["exact"][2]) > 0:
             tr = results["exact"][2]
             tl = [json.loads(l) for l in open(tr)]
             idx = None
